@@ -436,3 +436,63 @@ def build_lossless(rng, style="plain", pixel_budget=3000):
             write_code(bw, rng, a, make_code(rng, syms, maxlen, rng.random() < .3))
     data = bw.tobytes(rng) + bytes(rng.getrandbits(8) for _ in range(rng.choice([0, 1, 5, 40])))
     return W, H, data, facts
+
+
+def boundary_sweep(k, glen_lit=1, dist_sym=28, len_sym=23, boundary_bytes=4096, sub=(192, 192)):
+    """A VALID stream in which ONE back-reference with the most extra bits that fits (length symbol 256+len_sym: 10 extra bits;
+    distance symbol dist_sym: 13 extra bits, a single-symbol = zero-bit distance code) starts exactly k bits before the end of the first
+    `boundary_bytes` bytes of the bit stream (where the sanitizer's 4 KiB buffer runs dry), behind literal pixels of exactly glen_lit bits
+    each and followed by literals up to the end of the sub-image.  The pixels are those of a PREDICTOR TRANSFORM's sub-image (4x4 blocks):
+    the sanitizer decodes sub-images, not the main image.  Sweeping k places the reference at every offset relative to the refill."""
+    import random
+    rng = random.Random(k)
+    sw, sh = sub
+    W, H = sw * 4, sh * 4
+    n = sw * sh
+    bw = BW()
+    bw.put(1, 1)            # a transform follows
+    bw.put(0, 2)            # predictor transform
+    bw.put(0, 3)            # block size 1 << (2 + 0)
+    bw.put(0, 1)            # sub-image: no colour cache
+    if glen_lit == 1:
+        g = {0: 1, 1: 2, 256 + len_sym: 2}
+    else:
+        g = {0: 2, 1: 2, 2: 2, 256 + len_sym: 2}
+    lens = [0] * 280
+    for sy, l in g.items():
+        lens[sy] = l
+    write_normal_code(bw, rng, lens, use_max_symbol=False)
+    for _ in range(3):
+        write_simple_code(bw, [0])              # red, blue, alpha: one symbol, zero bits
+    write_simple_code(bw, [dist_sym])           # distance: one symbol, zero bits
+    G = canon(g)
+    cost = len(G[0])
+    target = boundary_bytes * 8 - k             # bit offset at which the back-reference starts
+    head = len(bw.bits)
+    if (target - head) % cost:
+        return None
+    nlit = (target - head) // cost
+    idx = 0
+    for _ in range(nlit):
+        bw.code(G[0])
+        idx += 1
+    le = (1 << 10) - 1
+    ln = lz77_value(len_sym, le)
+    nb = lz77_extra_bits(dist_sym)
+    de = 0
+    dist = lz77_value(dist_sym, de) - 120
+    if dist > idx or idx + ln > n:
+        return None
+    bw.code(G[256 + len_sym])
+    bw.put(le, 10)
+    bw.put(de, nb)
+    idx += ln
+    while idx < n:
+        bw.code(G[1 if idx % 7 == 0 else 0])
+        idx += 1
+    bw.put(0, 1)            # no further transform
+    bw.put(0, 1)            # main image: no colour cache
+    bw.put(0, 1)            # no meta prefix codes
+    for _ in range(5):
+        write_simple_code(bw, [0])              # every pixel of the main image costs zero bits
+    return W, H, bw.tobytes() + b"\0\0"
